@@ -1377,6 +1377,9 @@ def generate(pid, tier, seed):
     for c in cases:
         if c[0].endswith("elem=u32") and rng.random() < (0.12 if tier == "quick" else 0.25):
             wide.append([c[0].replace("elem=u32", "elem=wide").replace(f"case {pid}-", f"case {pid}w-")] + c[1:])
+        elif c[0].endswith("elem=cell") and rng.random() < (0.12 if tier == "quick" else 0.25):
+            # … and a sample of the ledgered-cell cases on `widecell` (96 bytes, drop glue, same ledger and fault countdowns)
+            wide.append([c[0].replace("elem=cell", "elem=widecell").replace(f"case {pid}", f"case {pid}W", 1)] + c[1:])
     cases = cases + wide
     if pid in HUGE_PIDS:
         cases = cases + gen_huge(pid, tier, seed)
